@@ -99,6 +99,7 @@ var acceptC09 = []accept{
 
 func runC09(p *eng.Prog, r *eng.Report, tier string) {
 	c := &cx{p, r, tier}
+	c.r.Floor("C09.29", "deferred releases of a mutex", deferredReleaseNotInLoop(c, "C09.29"), 20)
 	r.Floor("C09.27", "comparisons of interface values", interfaceComparisonsCannotPanic(c, "C09.27"), 10)
 	r.Floor("C09.28", "blocking channel operations", lockHeldAcrossChannelOp(c, "C09.28", ""), 10)
 	fns, why := serveScopeWith(c, true)
